@@ -21,6 +21,7 @@ themselves are executed unmodified.
 """
 from __future__ import print_function
 
+import inspect
 import io
 import json
 import os
@@ -63,6 +64,40 @@ def drive(value):
     if isinstance(value, types.GeneratorType):
         return c08stubs.run_generator(value)
     return value
+
+
+def param_names(meth):
+    """Parameter names of an emitted method (without self), looking through the
+    stub tornado coroutine decorator."""
+    f = getattr(meth, "__func__", meth)
+    while hasattr(f, "__wrapped__"):
+        f = f.__wrapped__
+    if PY3:
+        names = list(inspect.getfullargspec(f).args)
+    else:
+        names = list(inspect.getargspec(f).args)
+    if names and names[0] == "self":
+        names = names[1:]
+    return names
+
+
+def bind_by_name(meth, side, variables, values):
+    """Builds the argument list as a caller does who reads the emitted
+    signature: every prefix variable's value goes to the parameter of that
+    name, whatever its position; the first parameter of a publish method is the
+    context, the last one the payload / handler."""
+    names = param_names(meth)
+    by_name = dict(zip(variables, values))
+    lo = 1 if side == "pub" else 0
+    if len(names) != lo + len(values) + 1:
+        raise TypeError("emitted method takes parameters %r, the scope declares %d prefix variables" % (names, len(values)))
+    args = [c08stubs.Ctx()] if side == "pub" else []
+    for n in names[lo:-1]:
+        if n not in by_name:
+            raise TypeError("parameter %r of the emitted method is not a prefix variable of the scope %r" % (n, list(variables)))
+        args.append(by_name[n])
+    args.append(c08stubs.Payload() if side == "pub" else (lambda ctx, req: None))
+    return args
 
 
 def load_module(pkg_name, pkg_dir, mod_file):
@@ -157,10 +192,7 @@ def run_job(job, out):
                         prov = c08stubs.Provider()
                         obj = cls(prov)
                         meth = getattr(obj, mname)
-                        if side == "pub":
-                            args = [c08stubs.Ctx()] + list(values) + [c08stubs.Payload()]
-                        else:
-                            args = list(values) + [lambda ctx, req: None]
+                        args = bind_by_name(meth, side, sc["vars"], values)
                         drive(meth(*args))
                         got = prov.published if side == "pub" else prov.subscribed
                         if len(got) != 1:
